@@ -7,7 +7,7 @@ wt=/tmp/seed-$id; sw=/tmp/seedwork-$id; out=$sw/confirm.txt
 : > $out
 cd $wt || exit 2
 bld() { make -j8 >/dev/null 2>&1 || { echo "BUILD FAILED" | tee -a $out; exit 2; };
-        gcc -O1 -g -o $sw/demo_confirm $sw/demo.c -I$wt/src/include $wt/src/.libs/libabt.a -lpthread -lm 2>>$out || exit 2; }
+        gcc -O1 -g -o $sw/demo_confirm $sw/demo.c -I$wt/src/include $EXTRA_LDFLAGS $wt/src/.libs/libabt.a -lpthread -lm 2>>$out || exit 2; }
 rundemo() { f=0; i=0; while [ $i -lt $runs ]; do timeout 120 $sw/demo_confirm >$sw/confirm_out.txt 2>&1; rc=$?; [ $rc -ne 0 ] && f=$((f+1)); i=$((i+1)); done; echo "$1: demo failed $f/$runs (last rc=$rc: $(tail -1 $sw/confirm_out.txt | cut -c1-150))" | tee -a $out; }
 git diff > $sw/cur.diff
 cmp -s $sw/cur.diff $sw/patch.diff || { git checkout -- . ; git apply $sw/patch.diff || exit 2; }
